@@ -51,4 +51,12 @@ PROPS = {
         need_events=["queries", "path_queries"],
         assumptions=TRUST + ["for a numeric code the dictionary does not define the library may answer 'not found' or the reference result, never a different AVP"],
     ),
+    "C16": dict(
+        level="exploration",
+        rule="Message.Answer over the header space: all 256 flag bytes x the 16 boundary identifier pairs {0,1,2^31,2^32-1}^2 plus random pairs, commands/applications of every dictionary context plus undefined ones, result codes 0 / 2xxx / 3xxx / 5xxx / random; every answer is serialised and checked field by field by the reference decoder. CEA (success and every error class) and DWA produced by the state machine, and the transport stream of replies on the in-memory SCTP association (streams 0..15 and 65535), are checked by the same mirror oracle. distinct_nontrivial counts distinct (identifier class, R, P, result-code-zero) classes and (source, stream) classes.",
+        runs=dict(quick=[plain("TestC16", 8)], thorough=[plain("TestC16", 16, 3000)]),
+        floor=dict(quick=2000, thorough=30000),
+        need_events=["answers_checked"],
+        assumptions=TRUST,
+    ),
 }
